@@ -1564,9 +1564,19 @@ func (db *DB) RequestWithContext(ctx context.Context, req *command.Request, xTim
 	// abortOnError indicates whether the caller should continue
 	// processing or break.
 	abortOnError := func(err error) bool {
-		if err != nil && tx != nil {
+		if err == nil {
+			return false
+		}
+		if tx != nil {
 			tx.Rollback()
 			tx = nil
+			return true
+		}
+		if req.RollbackOnError {
+			// Use a background context here since the original context may have been canceled or hit its deadline,
+			// and we want to ensure the rollback goes through.
+			db.executeStmtWithConn(context.Background(), &command.Statement{Sql: "ROLLBACK"}, false, eq,
+				time.Duration(req.DbTimeout))
 			return true
 		}
 		return false
